@@ -11,8 +11,9 @@ VIOLATION.  The change is kept as /verif/seeded/<Cxx>_<n>/ with meta.json record
 """
 import json, os, shutil, subprocess, sys, time
 
-pid, n = sys.argv[1], sys.argv[2]
-props = [pid] + sys.argv[3:]
+pid, n = sys.argv[1], sys.argv[2]          # pid = worktree tag: C07 or, for later rounds, C07r2
+prop = pid[:3]
+props = [prop] + sys.argv[3:]
 wt = f'/tmp/wt/{pid}'
 src = f'/tmp/wt/{pid}.out/{n}'
 patch = os.path.join(src, 'patch.diff')
@@ -25,7 +26,7 @@ def sh(cmd, cwd=None, timeout=3600, env=env):
     return p.returncode, (p.stdout + p.stderr)
 
 
-meta = {'property': pid, 'n': n, 'steps': {}}
+meta = {'property': prop, 'n': n, 'round_tag': pid, 'steps': {}}
 rc, out = sh('git status --short', wt)
 assert out.strip() == '', f'worktree {wt} not clean: {out}'
 rc, out = sh(f'/venv/bin/python {src}/demo.py', wt, 900)
